@@ -112,6 +112,7 @@ type srvNode struct {
 	stderr *bytes.Buffer
 	asked  bool // we stopped it ourselves
 	conn   *grpc.ClientConn
+	join   []string // the --join addresses of its command line (the same on every start, as under a supervisor)
 }
 
 type srvCluster struct {
@@ -157,7 +158,9 @@ func newSrvCluster(c *Ctx, prop string) *srvCluster {
 
 func (c *srvCluster) addr(id uint64) string { return net.JoinHostPort("127.0.0.1", c.nodes[id].port) }
 
-// start (or restart) node id; join = ids of running members to join through (first start only)
+// start (or restart) node id; join = ids of members to join through. The command line of a member does
+// not change between starts (cmd/anndb under a supervisor): a restart joins through the same addresses
+// again. A start that fails in JoinCluster (nobody answers yet) is retried, as a supervisor would.
 func (c *srvCluster) start(id uint64, join ...uint64) error {
 	n := c.nodes[id]
 	if n == nil {
@@ -165,11 +168,35 @@ func (c *srvCluster) start(id uint64, join ...uint64) error {
 		os.MkdirAll(n.dir, 0755)
 		c.nodes[id] = n
 		c.order = append(c.order, id)
+		for _, j := range join {
+			n.join = append(n.join, c.addr(j))
+		}
 	}
-	args := []string{"child", "-seed", "0", "servers-node", fmt.Sprint(id), n.port, n.dir}
-	for _, j := range join {
-		args = append(args, c.addr(j))
+	deadline := time.Now().Add(100 * time.Second)
+	var err error
+	for attempt := 1; ; attempt++ {
+		if err = c.startOnce(n); err == nil || !strings.HasPrefix(err.Error(), "JoinCluster:") || time.Now().After(deadline) {
+			break
+		}
+		c.out.Local("start of node %d, attempt %d: %v (retrying)", id, attempt, err)
+		time.Sleep(time.Second)
 	}
+	if err != nil {
+		return err
+	}
+	if n.conn == nil {
+		conn, err := grpc.Dial(c.addr(id), grpc.WithInsecure())
+		if err != nil {
+			return err
+		}
+		n.conn = conn
+	}
+	return nil
+}
+
+func (c *srvCluster) startOnce(n *srvNode) error {
+	id := n.id
+	args := append([]string{"child", "-seed", "0", "servers-node", fmt.Sprint(id), n.port, n.dir}, n.join...)
 	cmd := exec.Command(os.Args[0], args...)
 	n.stderr = &bytes.Buffer{}
 	cmd.Stderr = n.stderr
@@ -187,7 +214,7 @@ func (c *srvCluster) start(id uint64, join ...uint64) error {
 	n.cmd, n.stdin, n.asked = cmd, stdin, false
 	n.lines = make(chan string, 64)
 	n.exited = make(chan struct{})
-	go func(n *srvNode, lines chan string, exited chan struct{}) {
+	go func(lines chan string, exited chan struct{}) {
 		sc := bufio.NewScanner(stdout)
 		sc.Buffer(make([]byte, 1<<20), 1<<24)
 		for sc.Scan() {
@@ -198,7 +225,7 @@ func (c *srvCluster) start(id uint64, join ...uint64) error {
 		}
 		cmd.Wait()
 		close(exited)
-	}(n, n.lines, n.exited)
+	}(n.lines, n.exited)
 	select {
 	case l := <-n.lines:
 		if l != "READY" {
@@ -207,17 +234,15 @@ func (c *srvCluster) start(id uint64, join ...uint64) error {
 		}
 	case <-n.exited:
 		n.cmd = nil
+		select {
+		case l := <-n.lines:
+			return fmt.Errorf("%s", l)
+		default:
+		}
 		return fmt.Errorf("the node's process ended while starting: %s", c.reason(n))
 	case <-time.After(90 * time.Second):
 		c.kill(id)
 		return fmt.Errorf("the node did not finish starting (Run + JoinCluster) within 90 s")
-	}
-	if n.conn == nil {
-		conn, err := grpc.Dial(c.addr(id), grpc.WithInsecure())
-		if err != nil {
-			return err
-		}
-		n.conn = conn
 	}
 	return nil
 }
@@ -331,6 +356,12 @@ func childServerNode(args []string) {
 	id, _ := strconv.ParseUint(args[0], 10, 64)
 	cfg := &anndb.Config{RaftNodeId: id, Port: args[1], DataDir: args[2], JoinNodes: args[3:]}
 	log.SetOutput(ioutil.Discard)
+	if d := os.Getenv("VERIF_SRVLOG"); d != "" { // debugging aid: the node's own log, appended across restarts
+		if f, err := os.OpenFile(fmt.Sprintf("%s/node-%d.log", d, id), os.O_APPEND|os.O_CREATE|os.O_WRONLY, 0644); err == nil {
+			log.SetOutput(f)
+			fmt.Fprintf(f, "==== start %v\n", args)
+		}
+	}
 	s := anndb.NewServer(cfg)
 	if err := s.Run(); err != nil {
 		fmt.Println("Run: " + strings.ReplaceAll(err.Error(), "\n", " "))
@@ -347,6 +378,8 @@ func childServerNode(args []string) {
 		case "snapshot":
 			err := s.VerifZeroGroup().VerifSnapshotNow()
 			fmt.Println("SNAP " + strings.ReplaceAll(fmt.Sprint(err), "\n", " "))
+		case "leader":
+			fmt.Println("LEADER " + fmt.Sprint(s.VerifZeroGroup().LeaderId()))
 		case "stacks":
 			fmt.Println("STACKS " + strings.ReplaceAll(goroutineDump(), "\n", " | "))
 		case "stop":
@@ -902,11 +935,55 @@ func srvMembership(cx *Ctx, hard bool) {
 			return true
 		})
 		if !ok {
+			c.died()
 			out.Violate("C20", "C20/servers/members-differ", fmt.Sprintf("%s: every member must list %v; after 45 s: %v", when, w, got))
 		}
 		return ok
 	}
+	leaderIs := func(id uint64) bool { return c.ask(1, "leader", 5*time.Second) == fmt.Sprintf("LEADER %d", id) }
+	// lagging: member `lag` is down while member `victim`'s removal (through member 1, the leader) is
+	// acknowledged and the running members compact their logs; it comes back, is caught up by a snapshot,
+	// and must not list the removed member. `lag` has applied the victim's join from its own log.
+	lagging := func(lag, victim uint64, rest ...uint64) bool {
+		if !leaderIs(1) {
+			out.Local("member 1 is not the leader (%s): the removal phase is skipped", c.ask(1, "leader", 5*time.Second))
+			return true
+		}
+		c.stop(lag, hard)
+		out.Local("member %d stopped", lag)
+		if err := c.removeMember(1, victim); err != nil {
+			out.Local("removal of member %d failed: %v", victim, err)
+			return false
+		}
+		c.stop(victim, false)
+		var running, all []uint64
+		for _, id := range rest {
+			running = append(running, id)
+		}
+		all = append(append([]uint64{}, running...), lag)
+		if !check(fmt.Sprintf("after member %d's removal was acknowledged (member %d is down)", victim, lag), running, want(all...)) {
+			return false
+		}
+		c.snapshotNow()
+		if err := c.start(lag); err != nil {
+			out.Violate("C20", "C20/servers/restart-fails", fmt.Sprintf("member %d does not start again: %v", lag, err))
+			return false
+		}
+		out.Local("member %d restarted; the others' logs no longer hold the removal: it is caught up by a snapshot", lag)
+		out.Nontrivial("lagging-member-removal")
+		return check(fmt.Sprintf("after member %d, down during member %d's removal and the compaction, came back", lag, victim), all, want(all...))
+	}
 	if !check("after two acknowledged joins", []uint64{1, 2, 3}, want(1, 2, 3)) {
+		return
+	}
+	if !lagging(2, 3, 1) {
+		return
+	}
+	if err := c.start(4, 2); err != nil {
+		out.Local("node 4 failed to join through member 2: %v", err)
+		return
+	}
+	if !check("after a third acknowledged join (through member 2)", []uint64{1, 2, 4}, want(1, 2, 4)) {
 		return
 	}
 	c.snapshotNow()
@@ -916,20 +993,15 @@ func srvMembership(cx *Ctx, hard bool) {
 		return
 	}
 	out.Nontrivial("member-restart-after-compaction")
-	if !check("after member 2 restarted from its compacted log", []uint64{1, 2, 3}, want(1, 2, 3)) {
+	if !check("after member 2 restarted from its compacted log", []uint64{1, 2, 4}, want(1, 2, 4)) {
 		return
 	}
-	if err := c.start(4, 2); err != nil {
-		out.Local("node 4 failed to join through member 2: %v", err)
+	if err := c.start(5, 1); err != nil {
+		out.Local("node 5 failed to join through member 1: %v", err)
 		return
 	}
-	if !check("after a third acknowledged join (through member 2)", []uint64{1, 2, 3, 4}, want(1, 2, 3, 4)) {
+	if !check("after a fourth acknowledged join", []uint64{1, 2, 4, 5}, want(1, 2, 4, 5)) {
 		return
 	}
-	if err := c.removeMember(1, 3); err != nil {
-		out.Local("removal of member 3 failed: %v", err)
-		return
-	}
-	c.stop(3, false)
-	check("after member 3's removal was acknowledged", []uint64{1, 2, 4}, want(1, 2, 4))
+	lagging(4, 5, 1, 2)
 }
